@@ -214,6 +214,10 @@ class LevelFold(Harness):
             r = OL.run_output(M, None, json=self.json, sw='OpenSSH_1.2.3', pkm=pkm, protocol=(1, 5), out_factory=RB)
         elif v == 'proto-1.99':
             r = OL.run_output(M, self.GOODL, json=self.json, sw=inp['sw'], protocol=(1, 99), out_factory=RB)
+        elif v == 'proto-1.99+nonascii':
+            r = OL.run_output(M, self.GOODL, json=self.json, sw=inp['sw'], protocol=(1, 99), out_factory=RB, valid_ascii=False)
+        elif v == 'proto-1.99-with-ssh2-only-option':
+            r = OL.run_output(M, self.GOODL, json=self.json, sw=inp['sw'], protocol=(1, 99), out_factory=RB, extra={'ssh1': False, 'ssh2': True})
         elif v == 'nonascii-banner':
             r = OL.run_output(M, self.GOODL, json=self.json, sw=inp['sw'], out_factory=RB, valid_ascii=False)
         else:
@@ -234,7 +238,7 @@ class LevelFold(Harness):
         if not self.json:
             yield 'status==fold-of-all-failure/warning-level-lines', obs['ret'] == want
         else:
-            yield 'json-status==text-status', obs['ret'] == {'ssh1-report': 3, 'proto-1.99': 3, 'nonascii-banner': 2, 'clean': 0}[self.variant]
+            yield 'json-status==text-status', obs['ret'] == {'ssh1-report': 3, 'proto-1.99': 3, 'nonascii-banner': 2, 'clean': 0, 'proto-1.99+nonascii': 3, 'proto-1.99-with-ssh2-only-option': 3}[self.variant]
 
     def classify(self, inp, obs, label):
         if label.startswith('status==fold') or label.startswith('json-status'):
@@ -317,7 +321,7 @@ def tasks(tier):
             T.append(Broken(st, multi))
             if st in ('banner-only', 'truncated-kexinit', 'wrong-type', 'garbage-kexinit', 'short-kexinit-payload-30', 'no-banner') or tier != 'quick':
                 T.append(Broken(st, multi, True))
-    for v in ('clean', 'ssh1-report', 'proto-1.99', 'nonascii-banner'):
+    for v in ('clean', 'ssh1-report', 'proto-1.99', 'nonascii-banner', 'proto-1.99+nonascii', 'proto-1.99-with-ssh2-only-option'):
         T.append(LevelFold(v))
         T.append(LevelFold(v, True))
     T.append(PolicyStatus(False))
